@@ -149,6 +149,12 @@ inline MVal gen_good_op(Rng& r, const MVal& doc, const GenOpts& go) {
         const auto& p = paths[r.below(paths.size())];
         MVal d = doc; // scratch for lookups
         MVal* node = resolve(d, p, p.size());
+        if (sel == 0 && r.chance(1, 6)) { // add at the root: replaces the whole document (RFC 6902 4.1)
+            MVal o = mk_op("add", ""); o.set("value", gen_value(r, small, 0)); return o;
+        }
+        if (sel == 9 && r.chance(1, 8)) { // copy / move a sub-value over the whole document
+            MVal o = mk_op(!p.empty() && r.coin() ? "move" : "copy", ""); o.set("from", MVal::str(make_ptr(p))); return o;
+        }
         if (sel < 4) { // add: new member / insert index / append / existing member (= replace)
             if (node->k == MVal::Obj) {
                 std::vector<std::string> q = p;
